@@ -116,6 +116,7 @@ class Exec:
         self._picks = []
         self._pick_i = 0
         self._quiet_now = True
+        self.client_timers = []          # [(time, seq, fn)] simulated-client timers
         if impl == 'thread':
             self.world.pick = self._pick
 
@@ -250,7 +251,14 @@ class Exec:
             if s.vanished or s.client_closed or self.sid_of(s) is None:
                 continue
             if s.autopong and s.ping_pending:
-                self._send_pong(s)
+                delay = getattr(s, 'pong_delay', 0) or 0
+                if delay <= 0:
+                    self._send_pong(s)
+                else:
+                    s.ping_pending = False
+                    self._timer_seq = getattr(self, '_timer_seq', 0) + 1
+                    self.client_timers.append((s.pings[-1] + delay, self._timer_seq,
+                                               lambda s=s: self._delayed_pong(s)))
                 acted = True
             if s.autopoll and s.main_ws is None and s.kind == 'polling' and \
                     (s.open_req is None or s.open_req.done) and \
@@ -270,16 +278,37 @@ class Exec:
             if not self.automate():
                 break
 
+    def _delayed_pong(self, s):
+        if s.vanished or s.client_closed:
+            return
+        self._send_pong(s)
+
+    def _run_client_timers(self):
+        ran = False
+        due = sorted((t for t in self.client_timers if t[0] <= self.now), key=lambda t: t[:2])
+        for t in due:
+            self.client_timers.remove(t)
+            t[2]()
+            ran = True
+        return ran
+
     def pass_time(self, dt):
         target = self.now + dt
         for _ in range(100000):
             self.settle()
+            while self._run_client_timers():
+                self.settle()
             nd = self.world.next_deadline()
+            cd = min((t[0] for t in self.client_timers), default=None)
+            if cd is not None and (nd is None or cd < nd):
+                nd = cd
             if nd is None or nd > target:
                 break
             self.world.advance_to(nd)
         self.world.advance_to(target)
         self.settle()
+        while self._run_client_timers():
+            self.settle()
 
     # -- primitive client operations -------------------------------------------------------------
     def upg_state(self, s):
@@ -392,6 +421,9 @@ class Exec:
                 s.expect_accept = v is None or v is True
         s.autopong = bool(a.get('autopong'))
         s.autopoll = bool(a.get('autopoll'))
+        s.pong_delay = a.get('pong_delay', 0)
+        s.pong_class = a.get('pong_class')
+        s.manual_pongs = 0
         hdrs = [('X-Verif-Open', str(s.ord)), ('Host', 'localhost')]
         if s.kind == 'websocket':
             s.open_conn = self.world.ws_open('transport=websocket&EIO=4', headers=hdrs)
@@ -502,6 +534,7 @@ class Exec:
         s = self.sess(a['s'])
         if s is None or self.sid_of(s) is None:
             return
+        s.manual_pongs = getattr(s, 'manual_pongs', 0) + 1
         self._send_pong(s)
 
     def op_app_send(self, a):
@@ -521,6 +554,7 @@ class Exec:
         c.target_state = self.model_state(s)
         s.app_sent.append({'t': self.now, 'tag': find_tag(data), 'data': data, 'call': c,
                            'step': len(self.actions), 'target_state': c.target_state,
+                           'settled': bool(a.get('settle', True)),
                            'after': set(x['tag'] for x in s.app_sent if x['call'].done),
                            'upg_state': self.upg_state(s),
                            'poll_pending': any(not q.done for q in s.polls)})
@@ -648,10 +682,12 @@ class Exec:
             self.raw_reqs.append(r)
 
     # -- end of history -------------------------------------------------------------------------------
-    def drain(self, horizon=None):
+    def drain(self, horizon=None, keep_policies=False):
         """Clients keep reading and answering; the clock moves past every deadline."""
         self.settle()
         for s in self.sessions:
+            if keep_policies:
+                continue
             if not s.vanished:
                 s.autopong = True
                 s.autopoll = True
@@ -792,6 +828,13 @@ class Drawer:
         a = {'op': 'open', 'transport': tr,
              'autopong': d(st.sampled_from(self.profile.get('autopong', [True, True, False]))),
              'autopoll': d(st.sampled_from(self.profile.get('autopoll', [False, True])))}
+        pd = self.profile.get('pong_delays')
+        if pd:
+            k = d(st.sampled_from(pd))
+            T = self.ex.T
+            a['pong_delay'] = {'0': 0, 'T/2': T / 2, 'T-e': T - TICK, 'T': T, 'T+e': T + TICK,
+                               '2T': 2 * T}[k]
+            a['pong_class'] = k
         oc = d(st.sampled_from(self.profile.get('connect_outcomes', [None])))
         if oc is not None:
             a['connect'] = oc
